@@ -395,7 +395,7 @@ def step (ms : MState) (op : String) (args impl : List String) : MState × Pred 
           if how == "handle" then
             (if !validHandle s th then (ms, .err "UninitializedEntity") else
              match th with
-             | some t => unit (addReference s h.obj h.blk (nameOf s t.obj))
+             | some t => unit (addReference s h.obj h.blk (idOf s t.obj))
              | none => (ms, .err "UninitializedEntity"))
           else if h.kind == "T" && k.isEmpty then (ms, .err "EmptyString")
           else unit (addReference s h.obj h.blk k)
